@@ -980,6 +980,10 @@ func (k *kahn) checkVerdict() {
 			"a verdict is returned before the elimination finished", e.FactsStr("dominating conditions: ", lits))
 		res := ir.Resolve(rt.Results[0])
 		cv, isC := ir.ConstBool(res)
+		neg := e.graphRoles().CycleNegated // the test answers "acyclic": true is `no cycle`
+		if isC && neg {
+			cv = !cv
+		}
 		if !isC && nilable(res.Type()) {
 			// a cycle test that hands back a witness: nil is "no cycle", a value that
 			// cannot be nil is "cycle"; a value that may be nil, returned where a degree
@@ -1061,6 +1065,9 @@ func (k *kahn) checkVerdict() {
 						if isR && len(rt2.Results) == 1 {
 							rv2 := ir.Resolve(rt2.Results[0])
 							cv2, isC2 = ir.ConstBool(rv2)
+							if isC2 && neg {
+								cv2 = !cv2
+							}
 							if !isC2 && nilable(rv2.Type()) && !ir.IsNilConst(rv2) {
 								cv2, isC2 = true, true // a witness: judged at its own return
 							}
